@@ -264,10 +264,17 @@ def shard(ctx):
         g = GenCalls(rng, max_depth=rng.choice([2, 3]), size=rng.choice([4, 6, 8]), errors=0.05)
         prog = g.program()
         src, spans = emit_with_procs(prog)
-        rep = w.run(src, stop="lint")
-        if verdict(rep) != ("accepted",):
+        rep = w.run(src, budget=60000)
+        if not (rep.get("lint") or {}).get("ok"):
             r.count("base_not_accepted")
             continue
+        # the typed base program itself runs under the soundness monitor (procedures, function results, by-reference arguments)
+        if outcome(rep)[0] not in ("died", "watchdog", "harness_error"):
+            r.evaluations += 1
+            r.count("soundness_runs_typed_programs", group="parts")
+            v = judge_soundness(src, rep)
+            if v is not None:
+                r.fail("C12:a:" + v[0], v[1] + " | program:\n" + src[:900], {"part": "a", "src": src, "stdin": "", "files": False})
         proc_params = {p["name"].upper(): [t for _, t in p["params"]] for p in prog["procs"]}
         sites_main = numeric_sites(prog["main"], proc_params)
         n_sites = len(sites_main)
